@@ -299,6 +299,20 @@ def run_deserialiser(program, data, res, on_state=None):
     return obs
 
 
+def scribble(obj):
+    """The caller owns a deserialised description: edit every mutable value in place (as a
+    caller may).  Nothing of it may be shared with what later runs return."""
+    if isinstance(obj, dict):
+        for v in obj.values():
+            scribble(v)
+    elif isinstance(obj, list):
+        for v in obj:
+            scribble(v)
+        obj.append("verif-scribble")
+    elif isinstance(obj, _bitarray()):
+        obj.extend([1, 1, 1, 1])
+
+
 def _exc_name(e):
     return "no exception" if e is None else "%s(%s)" % (type(e).__name__, str(e)[:80])
 
@@ -407,6 +421,7 @@ def run_case(program, choices, t=None, trace=False, faults=True):
         got = canon_real(do.context)
         if got != want_tree and not problems:
             problems.append("deserialiser produced %r, expected %r" % (got, want_tree))
+        scribble(do.context)
         if t is not None:
             t.count("deserialiser_runs")
             t.count("transitions", do.steps)
@@ -679,9 +694,66 @@ def sibling_family():
     return progs
 
 
+COMPUTED_VALUES = [[], [1], [1, 2], [[1], [2, 3]], (1, 2), {}, {"a": 1}, "text", None, 0, True, b"", b"ab"]
+
+
+def computed_value_family(t):
+    """computed_value() may store any object; a list stored in a non-list target is still a
+    single used value (in the root, in a sub-description, next to a declared list)."""
+    from vc2_conformance.bitstream.io import BitstreamReader, BitstreamWriter
+    from vc2_conformance.bitstream.serdes import Deserialiser, Serialiser
+
+    def program(serdes, value, where):
+        if where == "root":
+            serdes.computed_value("c", value)
+            serdes.nbits("x", 3)
+        elif where == "sub":
+            serdes.subcontext_enter("s")
+            serdes.nbits("x", 3)
+            serdes.computed_value("c", value)
+            serdes.subcontext_leave()
+        else:  # next to a declared list target
+            serdes.declare_list("x")
+            serdes.nbits("x", 3)
+            serdes.computed_value("c", value)
+            serdes.nbits("x", 3)
+
+    for value in COMPUTED_VALUES:
+        for where in ("root", "sub", "list"):
+            t.count("computed_value_cases")
+            desc = {"root": {"x": 5}, "sub": {"s": {"x": 5}}, "list": {"x": [5, 2]}}[where]
+            want = copy_desc(desc)
+            (want["s"] if where == "sub" else want)["c"] = value
+            case = {"computed_value": [repr(value), where]}
+            try:
+                f = _io.BytesIO()
+                w = BitstreamWriter(f)
+                with Serialiser(w, copy_desc(desc)) as ser:
+                    program(ser, value, where)
+                w.flush()
+                if ser.context != want:
+                    t.violation("computed_value(%r) %s: serialiser context %r" % (value, where, ser.context), case)
+                    continue
+                r = BitstreamReader(_io.BytesIO(f.getvalue()))
+                with Deserialiser(r) as des:
+                    program(des, value, where)
+                if des.context != want:
+                    t.violation("computed_value(%r) %s: deserialised %r, expected %r" % (value, where, des.context, want), case)
+            except Exception as e:  # noqa
+                t.violation("computed_value(%r) %s: a complete description raised %s" % (value, where, _exc_name(e)), case)
+
+
+def copy_desc(d):
+    import copy as _copy
+
+    return _copy.deepcopy(d)
+
+
 def _shard_siblings(arg):
     _, w, n = arg
     t = Tally()
+    if w == 0:
+        computed_value_family(t)
     for program in sibling_family()[w::n]:
         program = norm_program(program)
         t.count("sibling_programs")
@@ -790,6 +862,10 @@ def run(ctx):
 
 
 def replay_case(case):
+    if "computed_value" in case:
+        t = Tally()
+        computed_value_family(t)
+        return [v["what"] for v in t.violations]
     program = norm_program(case["program"])
     choices = [int(c) for c in case["choices"]]
     return run_case(program, choices, None, trace=True, faults=True)
